@@ -136,6 +136,41 @@ def check(ctx):
         ctx.check(okc and okp, "C08.b", "collect_component_removals:fresh-buffer-per-poll", "%s:%d" % (coll.file, coll.line),
                   "buffer.clear() dominates removed.read(); only the iterator's entities are pushed",
                   "the removal collector does not clear its reused buffer before reading (entities of an earlier poll would be reported again) or pushes something else")
+        # every entity reported by RemovedComponents::read is forwarded: no filtering adaptor between read() and the consumer,
+        # and the consumer's closure pushes its element on every path (a removal followed by a re-insert is still a removal)
+        FILTERS = ("filter", "filter_map", "skip", "take", "step_by", "skip_while", "take_while", "rev", "dedup", "map_while", "scan", "flat_map")
+        chain_bad, consumers = [], 0
+        for bd in [coll] + prog.closures_of(coll):
+            for b, t, fr in bd.iter_calls():
+                if fr is None or not t["args"]:
+                    continue
+                n1 = lib.tail(mir.fn_name(fr), 1)
+                if n1 in ("for_each", "extend", "collect", "next") or n1 in FILTERS:
+                    srcs = origins(bd, t["args"][0] if n1 != "extend" else t["args"][-1])
+                    def from_read(os_, body=bd, depth=0):
+                        for o in os_:
+                            if o[0] == "call":
+                                fr2 = op_fn(body.blocks[o[1]]["term"]["func"])
+                                nm = lib.tail(mir.fn_name(fr2), 2) if fr2 else ""
+                                if nm == "RemovedComponents::read":
+                                    return True
+                                if fr2 and depth < 6 and body.blocks[o[1]]["term"]["args"] and from_read(origins(body, body.blocks[o[1]]["term"]["args"][0]), body, depth + 1):
+                                    return True
+                        return False
+                    if from_read(srcs):
+                        if n1 in FILTERS:
+                            chain_bad.append(n1)
+                        else:
+                            consumers += 1
+        push_counts = set()
+        for bd, b, t in pushes:
+            if bd is not coll:
+                c_, _, _ = lib.event_counts(bd, [b])
+                push_counts |= c_
+        ctx.check(not chain_bad and consumers >= 1 and (push_counts == {1} or not pushes or all(bd is coll for bd, b, t in pushes)), "C08.b",
+                  "collect_component_removals:forwards-every-removal", "%s:%d" % (coll.file, coll.line),
+                  "every entity yielded by RemovedComponents::read() is forwarded (no filtering adaptor, unconditional push)",
+                  "the removal collector drops some removals (adaptors %s, push counts %s): a removal followed by a re-insert before the poll would never be reacted to" % (chain_bad, sorted(push_counts)))
         rets = [st for b, i, st in coll.iter_stmts() if st["k"] == "assign" and st["place"]["l"] == 0 and not st["place"]["p"]]
         ctx.check(len(rets) == 1 and "use" in rets[0]["rv"] and all(o[0] == "arg" and o[1] == 1 for o in origins(coll, rets[0]["rv"]["use"])), "C08.b",
                   "collect_component_removals:returns-the-filled-buffer", "%s:%d" % (coll.file, coll.line), "", "the collector does not return the buffer it filled")
@@ -183,6 +218,7 @@ def check(ctx):
         sends = [(b, t) for b, t, fr in dt.iter_calls() if fr and lib.tail(mir.fn_name(fr), 1) == "send"]
         cnt, _, _ = lib.event_counts(dt, [b for b, t in sends])
         oks = cnt == {1} and all(all(o[0] == "arg" and o[1] == 1 and o[-1] == ".parent" for o in origins(dt, t["args"][1])) for b, t in sends)
+        oks = oks and all(lib.tail(mir.fn_name(op_fn(dt.blocks[b]["term"]["func"])), 1) == "send" for b, t in sends)
         ctx.check(oks, "C08.c", "DespawnTracker::drop:sends-parent-once", "%s:%d" % (dt.file, dt.line), "Drop sends self.parent exactly once",
                   "Drop for DespawnTracker sends %s times / not self.parent" % sorted(cnt))
     except (mir.AnchorLost, StopIteration) as e:
